@@ -245,11 +245,12 @@ class LineHook:
     """Counts 'line' events in frames whose code lives under <repo>/pycaption and
     raises InjectedFault at the n-th one (n=None: count only)."""
 
-    def __init__(self, prefix, ordinal=None):
+    def __init__(self, prefix, ordinal=None, record_sites=False):
         self.prefix = prefix
         self.ordinal = ordinal
         self.count = 0
         self.fired_at = None
+        self.sites = {} if record_sites else None   # "file:line" -> [first ordinal, last ordinal, hits]
 
     def _global(self, frame, event, arg):
         if frame.f_code.co_filename.startswith(self.prefix):
@@ -259,6 +260,14 @@ class LineHook:
     def _local(self, frame, event, arg):
         if event == "line":
             self.count += 1
+            if self.sites is not None:
+                key = "%s:%d" % (frame.f_code.co_filename[len(self.prefix):], frame.f_lineno)
+                e = self.sites.get(key)
+                if e is None:
+                    self.sites[key] = [self.count, self.count, 1]
+                else:
+                    e[1] = self.count
+                    e[2] += 1
             if self.ordinal is not None and self.count == self.ordinal and self.fired_at is None:
                 self.fired_at = "%s:%d" % (frame.f_code.co_filename[len(self.prefix):], frame.f_lineno)
                 raise InjectedFault("injected at line event %d (%s)" % (self.count, self.fired_at))
@@ -377,7 +386,7 @@ def run_history(job):
         if traced and fault and fault.get("kind") == "F2":
             hook = LineHook(env.prefix, int(fault["ordinal"]))
         elif traced and count_lines:
-            hook = LineHook(env.prefix, None)
+            hook = LineHook(env.prefix, None, record_sites=bool(job.get("record_sites")))
         if op["kind"] in ("write", "edit") and op["in"] not in env.sets:
             rec["status"] = "skipped"  # input set does not exist (its creation raised)
             rec["changed"] = env.snapshot_changes()
@@ -403,6 +412,8 @@ def run_history(job):
             rec["lines"] = hook.count
             if hook.fired_at:
                 rec["fired_at"] = hook.fired_at
+            if hook.sites is not None:
+                rec["sites"] = sorted([k] + v for k, v in hook.sites.items())
         rec["changed"] = env.snapshot_changes()
         records.append(rec)
     return {"records": records}
